@@ -13,8 +13,10 @@ statement: an id whose (new, else old) path is selected and not excluded must
 have the working entry (parent, name, kind, bytes, exec bit, link target) in
 the new revision, an id that is not selected must keep the basis entry; where the
 statement is silent (selected only through the old name, one of old/new
-excluded, ancestors of a selected new path) either is accepted; nothing else may
-appear.  Afterwards the tree's basis is the new revision, working files are
+excluded, ancestors of a selected new path, ids at or below a path that a
+possibly selected id vacates or occupies) either is accepted; nothing else may
+appear.  An exception other than a documented refusal is a finding unless the
+selection splits changes that depend on each other (no well-formed tree to record).  Afterwards the tree's basis is the new revision, working files are
 untouched, selected ids report no change and unselected pending changes are still
 reported.  Faults: an InjectedFault at every k-th transport operation (reads and
 writes) of the commit for a core set of states, and exceptions from the
